@@ -426,6 +426,11 @@ Pull(m, it, site) ==
     [] kind = "times" ->
          IF o.fn < o.xs[2].n THEN Val([SetCur(m, it, N(o.fn)) EXCEPT !.heap[it].fn = @ + 1], B(TRUE))
          ELSE Val(m, B(FALSE))
+    [] kind = "until" ->
+         \* xs = <<cur, start, end, stride>>, fn = elements produced so far: start + k * stride while it is below end
+         LET e == o.xs[2].n + o.fn * o.xs[4].n IN
+           IF e < o.xs[3].n THEN Val([SetCur(m, it, N(e)) EXCEPT !.heap[it].fn = @ + 1], B(TRUE))
+           ELSE Val(m, B(FALSE))
     [] kind \in {"map", "filter"} -> Pull(PushK(m, Frame("p." \o kind, site, it, <<>>, m.env)), o.cls, site)
     [] kind = "take" ->
          IF o.fn >= o.xs[2].n THEN Val(m, B(FALSE))                          \* the limit is tested before the source is touched
@@ -682,6 +687,14 @@ Invoke(m, obj, name, args, site) ==
   ELSE IF IsNum(obj) /\ name = "times" /\ args = <<>> THEN
          IF IsInt(obj) /\ obj.n >= 0 THEN LET m1 == MkIter(m, "times", <<obj>>, 0) IN Val(m1, R(LastObj(m1), "iter"))
          ELSE IF obj.x \in {"", "nzero"} /\ obj.n < 0 THEN Throw(m, "ValueError", site) ELSE Val(m, Poison)
+  ELSE IF IsNum(obj) /\ name = "until" /\ Len(args) \in {1, 2} THEN
+         \* a.until(b [, stride]): the signature wants numbers, the stride must be positive
+         IF \E i \in 1 .. Len(args) : ~IsNum(args[i]) THEN Throw(m, "RuntimeError", site)
+         ELSE IF ~IsInt(obj) \/ (\E i \in 1 .. Len(args) : ~IsInt(args[i])) THEN Val(m, Poison)
+         ELSE LET stride == IF Len(args) = 2 THEN args[2] ELSE N(1) IN
+                IF stride.n <= 0 THEN Throw(m, "ValueError", site)
+                ELSE LET m1 == MkIter(m, "until", <<obj, args[1], stride>>, 0) IN Val(m1, R(LastObj(m1), "iter"))
+  ELSE IF IsNum(obj) /\ name = "until" THEN Throw(m, "RuntimeError", site)
   ELSE IF IsInt(obj) /\ name \in {"floor", "ceil", "round"} /\ args = <<>> THEN Val(m, obj)
   ELSE Throw(m, "PropertyError", site)
 
